@@ -4,6 +4,7 @@ import (
 	"bytes"
 	"fmt"
 	"math/big"
+	"strings"
 	"testing"
 
 	"pgregory.net/rapid"
@@ -96,7 +97,7 @@ func genMinaMsg(t *rapid.T) (minaMsg, string) {
 	for i := 0; i < nb; i++ {
 		m.bits = append(m.bits, rapid.Bool().Draw(t, "bit"))
 	}
-	return m, fmt.Sprintf("%s+%df+%db", class, nf, nb)
+	return m, fmt.Sprintf("%s fields=%d bits=%d", class, nf, nb)
 }
 
 func minaVerify(t fataler, nid mina.NetworkID, sig *mina.Signature, pk *mina.PublicKey, msg *mina.ROInput) bool {
@@ -134,7 +135,7 @@ func TestMina(t *testing.T) {
 	const test = "Mina"
 	e := envPallas
 	n := e.ref.N
-	vlib.Check(t, 400, func(t *rapid.T) {
+	vlib.Check(t, 300, func(t *rapid.T) {
 		nid := rapid.SampledFrom([]mina.NetworkID{mina.MainNet, mina.TestNet, "foonet"}).Draw(t, "nid")
 		det := rapid.Bool().Draw(t, "deterministic")
 		d, keyClass := genScalar(t, "sk", n)
@@ -293,7 +294,7 @@ func TestMina(t *testing.T) {
 			mode = "deterministic"
 		}
 		vlib.Case(test, vlib.Desc("schnorr", "mina/"+mode+"/"+string(nid), "pallas", "poseidon-legacy", alt, 1), true,
-			"nid="+string(nid), "mode="+mode, "key="+keyClass, "msg="+msgClass, "alt="+alt, fmt.Sprintf("expected-valid=%v", want))
+			"nid="+string(nid), "mode="+mode, "key="+keyClass, "msg="+strings.Fields(msgClass)[0], strings.Fields(msgClass)[1], strings.Fields(msgClass)[2], "alt="+alt, fmt.Sprintf("expected-valid=%v", want))
 		vlib.Sample("mina", map[string]any{"nid": nid, "mode": mode, "key": keyClass, "msg": msgClass, "alt": alt})
 	})
 }
